@@ -90,3 +90,52 @@ def observe(rec, names):
         obs['residual_empty'] = (r1.is_empty(ignore_apps=False) and r2.is_empty(ignore_apps=False))
         obs['residual'] = [str(r1), str(r2)]
     return obs
+
+
+def hint_write_roundtrip(rec, names_app='shop'):
+    """The whole user workflow for one (old, new) model pair of Hint.tla: install the old
+    models, deploy the new ones, `evolve --hint --write NAME`, list NAME in SEQUENCE,
+    `evolve --execute`, then ask a fresh Evolver whether anything is left."""
+    import os
+    from ..absmodel import Names
+    from ..djproj import Project, render_models
+    names = Names(models={'A': 'Item', 'B': 'Tag', 'C': 'Zed'},
+                  fields={'id': 'id', 'f': 'name', 'g': 'g', 'h': 'h', 'k': 'k'}, app=names_app)
+    project = Project([names_app], tag='hintw')
+    out = {}
+    try:
+        project.deploy(names_app, render_models(rec['old'], names, names_app), [])
+        r0 = project.run({'action': 'evolve_api', 'project': False})
+        if r0['outcome'] != 'ok':
+            out['setup_error'] = (r0.get('error') or {}).get('msg')
+            return out
+        project.run({'action': 'insert_rows'})
+        project.deploy(names_app, render_models(rec['new'], names, names_app), [])
+        w = project.run({'action': 'command', 'name': 'evolve',
+                         'options': {'hint': True, 'write_evolution_name': 'auto1',
+                                     'interactive': False, 'verbosity': 1},
+                         'project': False})
+        out['write_outcome'] = w['outcome']
+        out['write_error'] = (w.get('error') or {}).get('msg')
+        path = os.path.join(project.root, names_app, 'evolutions', 'auto1.py')
+        out['written'] = os.path.exists(path)
+        if not out['written']:
+            out['stdout'] = w.get('cmd_stdout', '')[-300:]
+            return out
+        with open(path) as fp:
+            out['text'] = fp.read()
+        with open(os.path.join(project.root, names_app, 'evolutions', '__init__.py'), 'w') as fp:
+            fp.write("SEQUENCE = ['auto1']\n")
+        x = project.run({'action': 'command', 'name': 'evolve',
+                         'options': {'execute': True, 'interactive': False, 'verbosity': 0},
+                         'project': False})
+        out['exec_outcome'] = x['outcome']
+        out['exec_error'] = (x.get('error') or {}).get('msg')
+        out['exec_error_type'] = (x.get('error') or {}).get('type')
+        a = project.run({'action': 'evolve_api', 'execute': False, 'project': False})
+        out['after_required'] = a.get('required')
+        out['after_diff_empty'] = a.get('diff_empty')
+        out['after_error'] = (a.get('error') or {}).get('msg')
+        return out
+    finally:
+        project.destroy()
